@@ -343,3 +343,7 @@ impl<H: Host> Emulator<H> {
         }
     }
 }
+
+#[cfg(kani)]
+#[path = "/verif/hooks/core/emulator.rs"]
+mod verif_hooks;
